@@ -141,33 +141,60 @@ def image_fn(nseg, x64, pagesize):
 CODE = bytes.fromhex("554889e54883ec10c745fc00000000b8000000005dc390909090909090909090909090909090")
 
 
-def fetch_fn(pagesize):
+def fetch_fn(pagesize, fsz=7, adjacent=False):
+    """fsz: file-backed bytes of the code segment; with fsz=3 the instruction at offset 1 (48 89 | 00) straddles the
+    boundary between the file-backed part and the zero-filled part of the segment.  adjacent: a second PT_LOAD segment
+    starts exactly where the first one ends and the fetched instruction straddles the two."""
     def fn(E):
-        content, segs, entry = build_elf(E, 1, True, 0, concrete_payload=CODE, pagesize=pagesize)
+        content, segs, entry = build_elf(E, 2 if adjacent else 1, True, 0, concrete_payload=CODE, pagesize=pagesize)
         s = segs[0]
-        E.assume(_eqc(s["fsz"], 7))
+        E.assume(_eqc(s["fsz"], fsz))
+        if adjacent:
+            E.assume(_eq(s["msz"], s["fsz"]))
+            E.assume(_eqc(segs[1]["fsz"], 6))
+            # re-place segment 1 right behind segment 0 (build_elf put it 64 KiB further)
+            va1 = s["va"] + s["msz"]
+            ehsize, phsz, _ = SIZES[True]
+            for name in ("p_vaddr", "p_paddr"):
+                spec = PH[name]
+                content[ehsize + phsz + spec[2]: ehsize + phsz + spec[2] + spec[3]] = u(va1, spec[3])
+            segs[1]["va"] = va1
+            # a real file whose segments share a page is contiguous in the file too and congruent to its addresses
+            # modulo the page size (the loader maps whole file pages): offset1 == offset0 + filesz0, offset0 == vaddr0 (mod page)
+            off1 = s["off"] + s["fsz"]
+            spec = PH["p_offset"]
+            content[ehsize + phsz + spec[2]: ehsize + phsz + spec[2] + spec[3]] = u(off1, spec[3])
+            segs[1]["off"] = off1
+            E.assume(_eqc((s["off"] - s["va"]) & (pagesize - 1), 0))
         f = SC.DataIO(symx.SymFile(content))
         p = ELF.Elf(f)
         from amoco.system.linux64 import x64 as OSM
         task = OSM.OS.loader(p, Conf(pagesize))
-        ent = symx.conc(entry)
-        if ent is None:
-            ent = entry.realize("index")
+
+        def conc(x):
+            v = symx.conc(x)
+            return x.realize("index") if v is None else v
+        ent = conc(entry)
         i = task.read_instruction(ent)
-        off = symx.conc(s["off"])
-        if off is None:
-            off = s["off"].realize("index")
-        va = symx.conc(s["va"])
-        if va is None:
-            va = s["va"].realize("index")
-        fo = off + (ent - va)
+        lay = [(conc(g["off"]), conc(g["va"]), conc(g["fsz"]), conc(g["msz"])) for g in segs]
         import amoco.arch.x64.cpu_x64 as cpu
-        avail = 7 - (ent - va)
-        want = cpu.disassemble(bytes(content[fo:fo + min(15, avail)]))
+        # the image the file defines from the entry point on: file bytes, then zeros up to p_memsz, segment after segment
+        image = []
+        for k in range(15):
+            a = ent + k
+            b = None
+            for off, va, fs, ms in lay:
+                if va <= a < va + ms:
+                    b = content[off + (a - va)] if a - va < fs else 0
+            if b is None:
+                break
+            image.append(b)
         cpu.disassemble._disassembler__i = None
-        if want is None or len(want.bytes) > avail:
+        want = cpu.disassemble(bytes(image)) if image else None
+        cpu.disassemble._disassembler__i = None
+        if want is None or len(want.bytes) > len(image):
             return "partial"
-        E.prove(i is not None and bytes(i.bytes) == bytes(want.bytes), "read_instruction(e_entry) does not decode the file's bytes at the entry point")
+        E.prove(i is not None and bytes(i.bytes) == bytes(want.bytes), "read_instruction(e_entry) does not decode the bytes the file places at the entry point (file bytes, zero-filled part, next segment)")
         E.prove(i is not None and i.address is not None and i.address.v == ent, "instruction address")
         return "ok"
 
@@ -224,6 +251,9 @@ def items(tier, seed):
     out.append(("image", 2, True, 4096, tier))
     out.append(("fetch", 16, tier))
     out.append(("fetch", 4096, tier))
+    out.append(("fetch", 16, 3, tier))
+    out.append(("fetch", 4096, 3, tier))
+    out.append(("fetch", 16, 2, "adjacent", tier))
     out.append(("raw", 12, tier))
     return out
 
@@ -236,7 +266,7 @@ def run_item(item):
         fn = image_fn(item[1], item[2], item[3])
         label = "elf%d:seg%d:page%d" % (64 if item[2] else 32, item[1], item[3])
     elif kind == "fetch":
-        fn = fetch_fn(item[1])
+        fn = fetch_fn(item[1], item[2] if len(item) > 3 else 7, adjacent=(len(item) > 4))
         label = "fetch:page%d" % item[1]
     else:
         fn = raw_fn(item[1])
@@ -288,7 +318,7 @@ def run_item(item):
 def replay(rep):
     item = rep["item"]
     kind = item[0]
-    fn = image_fn(item[1], item[2], item[3]) if kind == "image" else (fetch_fn(item[1]) if kind == "fetch" else raw_fn(item[1]))
+    fn = image_fn(item[1], item[2], item[3]) if kind == "image" else (fetch_fn(item[1], item[2] if len(item) > 3 else 7, adjacent=(len(item) > 4)) if kind == "fetch" else raw_fn(item[1]))
     E = symx.Engine()
     E.concrete = rep["vals"]
     symx.Engine.cur = E
@@ -325,7 +355,7 @@ def coverage(agg, tier):
         "stubs": symx.STUBS + [symstruct.STUB],
         "rule": "state = one path of parser + loader + MemoryMap on a synthesised image with symbolic segment geometry and payload; obligation = for a quantified address in the segment, mmap.read(a,1) equals the file byte (0 beyond p_filesz); pc == e_entry; fetch decodes the file's bytes",
         "bounds": {"images": "ELF64 x86-64 with 1 segment at page sizes 16 / 4096 (thorough: + 64) and 2 segments; ELF32 i386 with 1 segment; p_offset window of 8, p_filesz < 8, zero-filled part < 8, p_vaddr over 128 positions; payload 40 symbolic bytes; raw shellcode image of 12 symbolic bytes",
-                   "fetch": "concrete 7-byte code payload placed at a symbolic offset/vaddr, entry point at 4 offsets",
+                   "fetch": "concrete code payload (7 or 3 file-backed bytes, then the zero-filled part) placed at a symbolic offset/vaddr, entry point at 4 offsets: the instruction fetched is the one the image (file bytes then zeros) defines, also when it straddles the file-backed/zero-filled boundary",
                    "outside": "PE and Mach-O loaders, HEX/SREC load_binary, relocation slots, dynamic linking, TLS, stack, ASLR, files > 256 bytes"},
         "exhaustive": False,
     }
